@@ -3380,6 +3380,9 @@ impl WasmGenerator {
                         }
                     }
                     _ => {
+                        // The callee may be a bare tuple/record element (`(t.0)(x)`): such a register
+                        // holds the address of the slot, so every use below dereferences it
+                        // (`emit_value_load_deref` is a plain load for any other register).
                         let return_types: Vec<ValType> = {
                             let ty = ret_ty.to_type();
                             if matches!(ty, Type::Primitive(PType::Unit)) {
@@ -3399,7 +3402,7 @@ impl WasmGenerator {
                         // TODO: This branch is a compatibility workaround for the current
                         // callable encoding. We should decide direct-function-ref vs closure
                         // statically during lowering, not by inspecting the runtime value.
-                        self.emit_value_load_typed(closure_ptr, ValType::I64, func);
+                        self.emit_value_load_deref(closure_ptr, ValType::I64, func);
                         func.instruction(&W::I64Const(DIRECT_FUNCTION_REF_MAX_EXCLUSIVE));
                         func.instruction(&W::I64LtU);
                         func.instruction(&W::If(block_type));
@@ -3409,7 +3412,7 @@ impl WasmGenerator {
                         // They are not heap/linear-memory closures, so call them directly
                         // without switching closure state.
                         self.emit_call_args_word(args, func);
-                        self.emit_value_load_typed(closure_ptr, ValType::I64, func);
+                        self.emit_value_load_deref(closure_ptr, ValType::I64, func);
                         func.instruction(&W::I32WrapI64);
                         func.instruction(&W::CallIndirect {
                             type_index: type_idx,
@@ -3441,14 +3444,14 @@ impl WasmGenerator {
 
                         // Set closure_self_ptr to the new closure
                         func.instruction(&W::I32Const(0)); // CLOSURE_SELF_PTR_ADDR
-                        self.emit_value_load(closure_ptr, func);
+                        self.emit_value_load_deref(closure_ptr, ValType::I64, func);
                         func.instruction(&W::I64Store(memarg));
 
                         // Push flattened i64 words matching indirect-call adapter ABI.
                         self.emit_call_args_word(args, func);
 
                         // Load function table index from closure[0]
-                        self.emit_value_load(closure_ptr, func);
+                        self.emit_value_load_deref(closure_ptr, ValType::I64, func);
                         func.instruction(&W::I32WrapI64);
                         func.instruction(&W::I64Load(memarg));
                         func.instruction(&W::I32WrapI64); // table index must be i32
@@ -4693,7 +4696,7 @@ impl WasmGenerator {
     ) {
         use wasm_encoder::Instruction as W;
         // Push closure address (i64) and state size (i64)
-        self.emit_value_load(closure_ptr, func);
+        self.emit_value_load_deref(closure_ptr, ValType::I64, func);
         func.instruction(&W::I64Const(state_size as i64));
         func.instruction(&W::Call(self.rt.closure_state_push));
     }
